@@ -317,9 +317,17 @@ def run_case(case, ctx, mode):
     if mode == "structure":
         check_has_unary_cycle(ctx, case, cfg, "input")
     for name, thunk in transformations(cfg, rng):
+        if case.get("only") and name.split("(")[0] not in case["only"]:
+            continue
         api = f"cfg.{name.split('(')[0]}" if mode == "structure" else "T(cfg)(xs)"
         c2 = dict(case, transformation=name)
-        ok, out = ctx.call(api, c2, thunk, mech_prefix=f"{name}")
+        if case.get("default_recursion"):
+            from rv import core
+
+            with core.default_recursion_budget(ctx):
+                ok, out = ctx.call(api, c2, thunk, mech_prefix=f"{name}")
+        else:
+            ok, out = ctx.call(api, c2, thunk, mech_prefix=f"{name}")
         if not ok:
             continue
         ctx.shape[f"T:{name.split('(')[0]}"] += 1
